@@ -4,6 +4,7 @@
 -/
 import Sfv.Driver.Sexp
 import Sfv.Model.Container
+import Sfv.Model.Evolve
 namespace Sfv
 
 structure DState where
@@ -15,6 +16,7 @@ def zooConv : UserFns
   | 0, v => v                                   -- `From` widening between unsigned integers: same number
   | 1, .num n => .bytes (toString n).toUTF8.toList   -- u32 → String (decimal)
   | 2, .num n => .num (n + 1000)                -- u16 → u32, adds 1000
+  | 3, .num n => .bytes (toString n).toUTF8.toList   -- u16 → String (decimal)
   | _, v => v
 
 def showErrC : ErrC → String
@@ -94,6 +96,12 @@ def step (st : DState) (line : String) : DState × String :=
         | .ok (v, r) => (st, "(ok " ++ showTV ty v ++ " " ++ toString r.length ++ ")")
         | .error e => (st, showLoadErr e)
       | _, _, _ => (st, "(bad-op loadfile)")
+    | .list [.atom "ext", .atom writer, .atom reader, .atom ver] =>
+      -- hypothesis of c03_upgrade / c18_downgrade: everything the writer's grammar at `ver` encodes is
+      -- encoded identically by the reader's grammar at `ver`
+      match st.env.lookup writer, st.env.lookup reader, ver.toNat? with
+      | some a, some b, some ver => (st, "(ok " ++ toString (encExt (saveWire a ver) (wireOf b ver)) ++ ")")
+      | _, _, _ => (st, "(bad-op ext)")
     | .list [.atom "packed", .atom name, .atom ver] =>
       match st.env.lookup name, ver.toNat? with
       | some ty, some ver => (st, "(ok " ++ toString (isPacked ty ver) ++ ")")
